@@ -404,6 +404,7 @@ class TTestNdarray:
         c.ctx.assume(var == S2 / (N - 1) - (S1 * S1) / (N * N - N))
         std = SQRT(var)
         sN = SQRT(N)
+        c.ctx.ghost.setdefault('ttest_denominators', []).append(std / sN)
         yield 't statistic = IG / (s / sqrt N) with the variance of eq. 18', to_real(r['t_statistic']) == ig / (std / sN)
         tc = TPPF(1 - alpha / 2, N - 1)
         yield 't critical', to_real(r['t_critical']) == tc
@@ -1410,3 +1411,74 @@ class PublicLTest:
                 loc.get('use_observed_counts') is False)
             yield 'seed passed through', z3.BoolVal(loc.get('seed') is seed)
         yield 'name / status', z3.BoolVal(r.fields.get('name') == 'Poisson L-Test' and r.fields.get('status') == 'normal')
+
+
+@contract
+class TTestAntisymmetry:
+    """C08: swapping the two forecasts negates the information gain and the t statistic and mirrors the confidence interval; a
+    forecast compared with itself has zero gain.  A lemma over the contract of _t_test_ndarray (two modular calls)."""
+    qualname = 'lemma:C08:_t_test_ndarray is antisymmetric in the two forecasts'
+    case = 'two modular calls with the forecasts swapped'
+    properties = ('C08',)
+
+    def lemma(c):
+        from pyvc.contracts import pointwise_sum_hint
+        n = c.int('n')
+        c.ctx.assume(n >= 2)
+        a, b = c.arr('rates1', 'float64', n=n), c.arr('rates2', 'float64', n=n)
+        na, nb, alpha = c.real('n_f1'), c.real('n_f2'), c.real('alpha')
+        c.ctx.assume(z3.And(alpha > 0, alpha < 1))
+        r1 = c.call(TTEST, a, b, n, na, nb, alpha)
+        r2 = c.call(TTEST, b, a, n, nb, na, alpha)
+        i = z3.Int('i!lam')
+        d = lambda t: LOG(to_real(a.f((t,)))) - LOG(to_real(b.f((t,))))
+        dm = lambda t: LOG(to_real(b.f((t,)))) - LOG(to_real(a.f((t,))))
+        S1, S1m = rsum(d, n), rsum(dm, n)
+        S2, S2m = rsum(lambda t: d(t) * d(t), n), rsum(lambda t: dm(t) * dm(t), n)
+        neg = SUM(z3.Lambda([i], -d(i)), n)
+        c.ctx.fact(neg == -S1, lemma=True)                 # L4_sum_neg
+        c.I.used_lemmas.add('L4.sum_neg')
+        h = pointwise_sum_hint(c, 'swapped log-rate differences are the negated ones', S1m, lambda t: -d(t), n)
+        if h:
+            yield h
+        h = pointwise_sum_hint(c, 'their squares are the same', S2m, lambda t: d(t) * d(t), n)
+        if h:
+            yield h
+        ig1, ig2 = to_real(r1['information_gain']), to_real(r2['information_gain'])
+        N = z3.ToReal(n)
+        yield 'hint:gains scaled by N', z3.And(ig1 * N == S1 - (na - nb), ig2 * N == S1m - (nb - na))
+        yield 'information gain is negated', ig2 == -ig1
+        yield 'hint:the square of the summed differences is unchanged', S1m * S1m == S1 * S1
+        yield 'hint:the summed squares are unchanged', S2m == S2
+        # the t statistic is a quotient by s / sqrt(N): the clause is about samples with a non-zero standard deviation
+        dens = c.ctx.ghost.get('ttest_denominators', [])
+        for dd in dens:
+            c.ctx.assume(dd != 0)
+        yield 't statistic is negated', to_real(r2['t_statistic']) == -to_real(r1['t_statistic'])
+        yield 'critical value unchanged', to_real(r2['t_critical']) == to_real(r1['t_critical'])
+        yield 'confidence interval is mirrored', z3.And(to_real(r2['ig_lower']) == -to_real(r1['ig_upper']),
+                                                        to_real(r2['ig_upper']) == -to_real(r1['ig_lower']))
+
+
+@contract
+class TTestSelf:
+    qualname = 'lemma:C08:a forecast compared with itself has zero information gain'
+    case = 'one modular call with the same rates and total twice'
+    properties = ('C08',)
+
+    def lemma(c):
+        from pyvc.contracts import pointwise_sum_hint
+        n = c.int('n')
+        c.ctx.assume(n >= 2)
+        a = c.arr('rates', 'float64', n=n)
+        na, alpha = c.real('n_f'), c.real('alpha')
+        c.ctx.assume(z3.And(alpha > 0, alpha < 1))
+        r = c.call(TTEST, a, a, n, na, na, alpha)
+        i = z3.Int('i!lam')
+        S1 = rsum(lambda t: LOG(to_real(a.f((t,)))) - LOG(to_real(a.f((t,)))), n)
+        zero = SUM(z3.Lambda([i], z3.RealVal(0)), n)
+        c.ctx.fact(zero == 0, lemma=True)                  # L4_sum_const
+        h = pointwise_sum_hint(c, 'every log-rate difference is zero', S1, lambda t: z3.RealVal(0), n)
+        if h:
+            yield h
+        yield 'zero information gain', to_real(r['information_gain']) == 0
